@@ -180,13 +180,13 @@ def jsonable(v):
     return v
 
 
-def call_and_capture(mod, client_cls, is_async, method_name, kwargs, data=None):
+def call_and_capture(mod, client_cls, is_async, method_name, kwargs, data=None, client_kwargs=None):
     captured = []
 
     def handler(request):
         captured.append(json.loads(request.content))
         return httpx.Response(200, json={"data": data if data is not None else {}})
-    c = clients.make_client(client_cls, is_async, handler)
+    c = clients.make_client(client_cls, is_async, handler, **(client_kwargs or {}))
     try:
         r = clients.call(is_async, getattr(c, method_name), **kwargs)
         return captured, ("ok", r)
@@ -194,7 +194,7 @@ def call_and_capture(mod, client_cls, is_async, method_name, kwargs, data=None):
         return captured, ("exc", e)
 
 
-def call_and_capture_ws(mod, mods, client_cls, method_name, kwargs):
+def call_and_capture_ws(mod, mods, client_cls, method_name, kwargs, client_kwargs=None):
     """Subscription counterpart of call_and_capture: scripted in-memory graphql-transport-ws connection
     (ack, then complete); returns the payloads of the subscribe frames the client sent."""
     import asyncio
@@ -233,7 +233,7 @@ def call_and_capture_ws(mod, mods, client_cls, method_name, kwargs):
     base_mod.ws_connect = lambda *a, **k: _CM()
     status = ("ok", None)
     try:
-        c = client_cls(ws_url="ws://verif.invalid")
+        c = client_cls(ws_url="ws://verif.invalid", **(client_kwargs or {}))
 
         async def drain():
             async for _ in getattr(c, method_name)(**kwargs):
